@@ -261,6 +261,7 @@ func main() {
 	srand.Reader = &saltReader{salt: salts[1]}
 	streams(r, a)
 	srand.Reader = saved
+	overlapped(r)
 	opensslBonus(r)
 	a.flush(r)
 	r.Assume(
